@@ -18,6 +18,8 @@ structure Ctx where
   id : String := ""
   kind : String := ""
   sch : Scheme := .index
+  base : String := "log.log"
+  blind : Bool := false   -- the directory scan does not see the sink's own rotated files (base without extension)
   skip : Bool := false
   fs : FS := []
   sink : Option Sink := none
@@ -57,17 +59,17 @@ def insertSorted (x : String × String) : List (String × String) → List (Stri
   | [] => [x]
   | y :: ys => if x.1 < y.1 then x :: y :: ys else y :: insertSorted x ys
 
-def listing (sch : Scheme) (fs : FS) : String :=
+def listing (base : String) (sch : Scheme) (fs : FS) : String :=
   let rows := fs.foldl (fun acc p =>
-    insertSorted (renderName sch p.1, ".".intercalate (p.2.map (fun s => toString s.id))) acc) []
+    insertSorted (renderNameB base sch p.1, ".".intercalate (p.2.map (fun s => toString s.id))) acc) []
   ";".intercalate (rows.map (fun r => r.1 ++ "=" ++ r.2))
 
-def showState (sch : Scheme) (fs : FS) (s : Sink) : List (String × String) :=
+def showState (base : String) (sch : Scheme) (fs : FS) (s : Sink) : List (String × String) :=
   [("next", if s.cfg.freq = .disabled then "-" else toString s.nextRot),
    ("open", toString s.openTs),
    ("fsz", toString s.fileSize),
-   ("dq", ",".intercalate (s.created.map (fun e => renderName sch e.name))),
-   ("listing", listing sch fs)]
+   ("dq", ",".intercalate (s.created.map (fun e => renderNameB base sch e.name))),
+   ("listing", listing base sch fs)]
 
 def parseObs (obs : String) : List (String × String) :=
   match obs.splitOn " | " with
@@ -114,13 +116,19 @@ def runTrace (adv : Bool) (minLimit : Nat) (delAllExcess : Bool) : IO UInt32 := 
     let (opS, obsS) := Drv.splitArrow line
     let ws := Drv.words opS
     match ws with
-    | ["case", id, sch, dst, kind, _tz] =>
+    | "case" :: id :: sch :: dst :: kind :: _tz :: extras =>
       if have_ then IO.println c.summary
       have_ := true
       traces := traces + 1
-      let sk := dst == "dst=1"
+      -- optional: base=<file name> (rendered by the model), sink=J (RotatingJsonFileSink: bytes on disk differ from the
+      -- statement size the sink counts — one size per statement in the model) and fa=<FilenameAppendOption> (the name
+      -- carries the wall-clock date): the last two are driven with the property oracle only
+      let base := (extras.filterMap (fun w => if w.startsWith "base=" then some (w.drop 5).toString else none)).headD "log.log"
+      let oracleOnly := extras.any (fun w => w.startsWith "sink=" || w.startsWith "fa=" || w.startsWith "oo=")
+      let sk := dst == "dst=1" || oracleOnly
       if sk then skipped := skipped + 1
-      c := { id := id, kind := kind, sch := schemeOf sch, skip := sk }
+      let blind := !scanSeesOwn base.toList base.toList
+      c := { id := id, kind := kind, sch := schemeOf sch, skip := sk, base := base, blind := blind }
     | "cfg" :: rest =>
       -- validation probes of the configuration setters
       let model : String := match rest with
@@ -146,23 +154,29 @@ def runTrace (adv : Bool) (minLimit : Nat) (delAllExcess : Bool) : IO UInt32 := 
           let fs' := c.fs.put n []
           c := { c with fs := fs', ops := c.ops + 1 }
           total := total + 1
-          let model := [("listing", listing c.sch fs')]
+          let model := [("listing", listing c.base c.sch fs')]
           let d := diffFields impl model
           if !d.isEmpty then
-            IO.println s!"MISMATCH case={c.id} line={lineNo} fields={",".intercalate d} : {opS} impl=[{obsS}] model=[{listing c.sch fs'}]"
+            IO.println s!"MISMATCH case={c.id} line={lineNo} fields={",".intercalate d} : {opS} impl=[{obsS}] model=[{listing c.base c.sch fs'}]"
             mism := mism + 1
         | none => IO.println s!"BAD-OP line {lineNo}: {line}"; problems := problems + 1
       -- `_spelling`: nothing, or `sp=<k>` — how the harness spelled the sink's path for this (re)start (canonical,
       -- relative, `./`, `x/../x`, through a symlink, …). The model has no such parameter: what is recovered and how the
       -- sequence continues must not depend on it, so the driver ignores it by construction.
-      | "start" :: limit :: mx :: ow :: mode :: cl :: fr :: iv :: hh :: mm :: ts :: off :: _spelling =>
+      | "start" :: limit :: mx :: ow :: mode :: cl :: fr :: iv :: hh :: mm :: ts :: off :: spelling =>
+        -- a start that changes the naming scheme (`sch=`): from here on the case is checked by the property oracle only
+        -- (the model's names carry one kind of suffix for the life of a directory)
+        if spelling.any (fun w => w.startsWith "sch=" && (w.drop 4).toString != (match c.sch with | .index => "I" | .date => "D" | .dateTime => "T")) then
+          c := { c with skip := true }
+          skipped := skipped + 1
+          continue
         let cfg : Cfg := { scheme := c.sch, limit := Drv.nat! limit, maxBackup := Drv.nat! mx, overwrite := ow == "1",
                            append := mode == "a", removeOld := cl == "1", freq := freqOf fr, interval := Drv.nat! iv,
                            dailyH := Drv.nat! hh, dailyM := Drv.nat! mm }
         let tsN := Drv.nat! ts
         let ztab := (tsN, int! off) :: c.ztab
-        let w := restart (zOf ztab) c.fs cfg tsN
-        let st := showState c.sch w.fs w.sink
+        let w := if c.blind then restartBlind (zOf ztab) c.fs cfg tsN else restart (zOf ztab) c.fs cfg tsN
+        let st := showState c.base c.sch w.fs w.sink
         let d := diffFields impl st
         total := total + 1
         if !d.isEmpty then
@@ -186,7 +200,7 @@ def runTrace (adv : Bool) (minLimit : Nat) (delAllExcess : Bool) : IO UInt32 := 
           let rotated := (timeFired || sizeFired) && decide (wp.sink.openTs = tsN) && decide (wp.sink.fileSize = 0)
                            && decide (bytes (content c.fs curInfo) ≠ 0)
           let w := write P z w0 stm tsN
-          let st := showState c.sch w.fs w.sink
+          let st := showState c.base c.sch w.fs w.sink
           let d := diffFields impl st
           total := total + 1
           if !d.isEmpty then
